@@ -337,7 +337,7 @@ func init() {
 					return []string{"auto.Render of a column-less table under a registered hand-assembled decoration panicked: " + lastPanic}, nil, true
 				}
 			}
-			g.do("leftdomain") // what follows is outside every property's domain: differences are recorded, not reported
+			g.do("leftdomain " + t) // what follows on this table is outside every property's domain: differences are recorded, not reported
 			n := g.ncols(t)
 			for i := 0; i < 1+r.n(2); i++ {
 				g.do(fmt.Sprintf("setprop c:%d:%d align %s", ti, r.n(n+1), r.pick([]string{"a99999", "u5", "b1", "a1", "a3"})))
